@@ -8,10 +8,12 @@ import Hive.Proofs.DerivedVar
 import Hive.Proofs.DerivedAsync
 import Hive.Proofs.DerivedEvict
 import Hive.Proofs.DerivedEvictLoop
+import Hive.Proofs.DerivedEvictLock
 import Hive.Proofs.DerivedVarSeq
 import Hive.Proofs.DerivedSortedWin
 import Hive.Spec.Derived
 import Hive.Gen.C14_Skel
+import Hive.Gen.C14_Facts
 /-!
 # C14 — derived reactive values converge to their defining function
 
@@ -251,39 +253,115 @@ delivery that does *not* hold the input's update-order mutex) running concurrent
 writers, each with an arbitrary script of `Set` calls on arbitrary inputs — several writers per input
 included — under every interleaving of their lock / store / read / commit / unlock steps.  `compute`
 is any function of the `n` inputs.  (Argument: every input's writer holds its update-order mutex from
-the store to the end of its callbacks, so the last committed recompute has seen current values.) -/
-theorem C14_derived_var (n : Nat) (hn : 0 < n) (f : (Nat → Int) → Int)
+the store to the end of its callbacks, so the last committed recompute has seen current values.)
+
+`trig i` is the `triggerWithInitialZeroValue` flag of the subscription to input `i`: `OnUpdate` invokes the new
+callback only `if currentValue != emptyValue || flag`; without the flag a subscription to an input that holds the
+zero value is registered silently.  The hypothesis is about the **last** subscription only: it recomputes from all
+inputs whatever their values are, and every earlier silent registration is covered by it (invariants `I2`/`I3` of
+`Proofs/DerivedVar.lean`: a stale committed vector is covered by a thread in flight *or by a constructor that will
+still recompute*).  `C14_derived_var_needs_last_flag`: it cannot be dropped. -/
+theorem C14_derived_var (n : Nat) (hn : 0 < n) (f : (Nat → Int) → Int) (trig : Nat → Bool) (htrig : trig (n - 1) = true)
     (hf : ∀ a b : Nat → Int, (∀ j, j < n → a j = b j) → f a = f b)
     (val0 : Nat → Int) (d0 : Int) (writers : List (List (Nat × Int))) (c : Cfg DVS DVT)
-    (hr : Reach (dvSys n f) (DVS.fresh val0 d0, DVT.cIdle (List.range n) :: writers.map DVT.idle) c)
+    (hr : Reach (dvSys n f trig) (DVS.fresh val0 d0, DVT.cIdle (List.range n) :: writers.map DVT.idle) c)
     (hq : ∀ t ∈ c.2, t.finished = true) :
     c.1.d = f c.1.val :=
-  dv_quiescent n hn f hf val0 d0 writers c hr hq
+  dv_quiescent n hn f trig htrig hf val0 d0 writers c hr hq
+
+/-- The flag of the last subscription is necessary: with `triggerWithInitialZeroValue` on the first of two
+subscriptions only, the schedule `dvLastFlagSched` (initial computation from `(1, 5)` paused in front of its commit, a
+writer clears input 1 to which nobody is subscribed yet, the constructor commits and subscribes silently) is a run of
+the model in which every thread has finished, `d = 15` and `compute(inputs) = 10`. -/
+theorem C14_derived_var_needs_last_flag :
+    ∃ c, Reach (dvSys 2 (fun a => 10 * a 0 + a 1) (fun i => i == 0)) dvLastFlagInit c ∧
+      (∀ t ∈ c.2, t.finished = true) ∧ c.1.d ≠ (fun a : Nat → Int => 10 * a 0 + a 1) c.1.val := by
+  refine ⟨_, runSched_reach _ _ dvLastFlagSched, ?_, ?_⟩
+  · have h := dv_quiescent_needs_last_flag.1
+    intro t ht
+    exact List.all_eq_true.1 h t ht
+  · have h := dv_quiescent_needs_last_flag
+    show (runSched _ dvLastFlagInit dvLastFlagSched).1.d ≠ _
+    intro e
+    have h2 := h.2.2
+    rw [h.2.1] at e
+    rw [← e] at h2
+    exact absurd h2 (by decide)
+
+open Hive.Gen.C14Facts in
+/-- **The constructors as they are in `variable.go`**: the subscriptions of `NewDerivedVariable1..4` and of
+`InheritFrom`, in source order with the arguments that follow the callback, are regenerated from the working tree on
+every run (`Hive/Gen/C14_Facts.lean`); they subscribe to `input1 … inputN` in this order, each with
+`triggerWithInitialZeroValue = true`. -/
+theorem C14_facts_subscriptions :
+    subs_NewDerivedVariable = [("input1", "true")] ∧
+    subs_NewDerivedVariable2 = [("input1", "true"), ("input2", "true")] ∧
+    subs_NewDerivedVariable3 = [("input1", "true"), ("input2", "true"), ("input3", "true")] ∧
+    subs_NewDerivedVariable4 = [("input1", "true"), ("input2", "true"), ("input3", "true"), ("input4", "true")] ∧
+    subs_variable_InheritFrom = [("other", "true")] ∧
+    subs_counter_Monitor = [("input", "true")] ∧
+    subs_sortedSet_addSorted = [("s.weightVariable(element)", "true")] ∧
+    subs_derivedSet_InheritFrom = [("source", "")] ∧
+    subs_readableSet_SubtractReactive = [("r", ""), ("other", "")] := by decide
+
+open Hive.Gen.C14Facts in
+/-- `readableVariable.OnUpdate` / `readableSet.OnUpdate` invoke the new callback once, under the guard the model
+uses (`currentValue` is the value read under the value mutex, `emptyValue` the declared-only zero value). -/
+theorem C14_facts_onupdate_guard :
+    guard_readableVariable_OnUpdate = "currentValue != emptyValue || lo.First(triggerWithInitialZeroValue)" ∧
+    invokes_readableVariable_OnUpdate = 1 ∧
+    decls_readableVariable_OnUpdate = ["currentValue := r.value",
+      "createdCallback := newCallback[func(prevValue, newValue Type)](callback)",
+      "callbackElement := r.registeredCallbacks.PushBack(createdCallback)", "var emptyValue Type"] ∧
+    params_readableVariable_OnUpdate = ["callback func(prevValue, newValue Type)", "triggerWithInitialZeroValue ...bool"] ∧
+    guard_readableSet_OnUpdate = "!mutations.IsEmpty() || lo.First(triggerWithInitialZeroValue)" ∧
+    invokes_readableSet_OnUpdate = 1 := by decide
+
+open Hive.Gen.C14Facts in
+/-- **`C14_derived_var` for the code's constructors**: the protocol model instantiated with the regenerated flags of
+`NewDerivedVariable` (k = 1), `NewDerivedVariable2/3/4` and `InheritFrom`; the hypothesis on the last flag is
+discharged by evaluating the regenerated list, so a constructor that drops it breaks this proof. -/
+theorem C14_derived_var_code (k : Nat) (subs : List (String × String))
+    (hk : (k, subs) ∈ [(1, subs_NewDerivedVariable), (2, subs_NewDerivedVariable2), (3, subs_NewDerivedVariable3),
+      (4, subs_NewDerivedVariable4), (1, subs_variable_InheritFrom)])
+    (f : (Nat → Int) → Int) (hf : ∀ a b : Nat → Int, (∀ j, j < k → a j = b j) → f a = f b)
+    (val0 : Nat → Int) (d0 : Int) (writers : List (List (Nat × Int))) (c : Cfg DVS DVT)
+    (hr : Reach (dvSys k f (trigOf subs)) (DVS.fresh val0 d0, DVT.cIdle (List.range k) :: writers.map DVT.idle) c)
+    (hq : ∀ t ∈ c.2, t.finished = true) :
+    c.1.d = f c.1.val := by
+  simp only [List.mem_cons, Prod.mk.injEq, List.mem_nil_iff, or_false] at hk
+  rcases hk with ⟨rfl, rfl⟩ | ⟨rfl, rfl⟩ | ⟨rfl, rfl⟩ | ⟨rfl, rfl⟩ | ⟨rfl, rfl⟩
+  · exact dv_quiescent 1 (by decide) f _ (by decide) hf val0 d0 writers c hr hq
+  · exact dv_quiescent 2 (by decide) f _ (by decide) hf val0 d0 writers c hr hq
+  · exact dv_quiescent 3 (by decide) f _ (by decide) hf val0 d0 writers c hr hq
+  · exact dv_quiescent 4 (by decide) f _ (by decide) hf val0 d0 writers c hr hq
+  · exact dv_quiescent 1 (by decide) f _ (by decide) hf val0 d0 writers c hr hq
 
 /-- The same for a derived variable that already exists (all callbacks registered, value up to date):
 only writers, any number, any scripts, any schedule. -/
 theorem C14_derived_var_steady (n : Nat) (f : (Nat → Int) → Int)
     (hf : ∀ a b : Nat → Int, (∀ j, j < n → a j = b j) → f a = f b)
     (val0 : Nat → Int) (writers : List (List (Nat × Int))) (c : Cfg DVS DVT)
-    (hr : Reach (dvSys n f)
+    (hr : Reach (dvSys n f (fun _ => true))
       ({ val := val0, upd := fun _ => false, ex := fun _ => false, reg := fun i => decide (i < n), dUpd := false,
          d := f val0, seen := val0 }, writers.map DVT.idle) c)
     (hq : ∀ t ∈ c.2, t.finished = true) :
     c.1.d = f c.1.val :=
-  dv_quiescent_steady n f hf val0 writers c hr hq
+  dv_quiescent_steady n f _ hf val0 writers c hr hq
 
 /-- **`InheritFrom` copies its source**: the inheriting variable is a derived variable of one input
 with the identity as `compute`; subscribing concurrently with any writers of the source, at quiescence
 it holds the source's value. -/
 theorem C14_inherit (val0 : Nat → Int) (d0 : Int) (writers : List (List (Nat × Int))) (c : Cfg DVS DVT)
-    (hr : Reach (dvSys 1 (fun a => a 0)) (DVS.fresh val0 d0, DVT.cIdle (List.range 1) :: writers.map DVT.idle) c)
+    (hr : Reach (dvSys 1 (fun a => a 0) (trigOf Hive.Gen.C14Facts.subs_variable_InheritFrom))
+      (DVS.fresh val0 d0, DVT.cIdle (List.range 1) :: writers.map DVT.idle) c)
     (hq : ∀ t ∈ c.2, t.finished = true) :
     c.1.d = c.1.val 0 :=
-  dv_quiescent 1 (by omega) (fun a => a 0) (fun a b h => h 0 (by omega)) val0 d0 writers c hr hq
+  dv_quiescent 1 (by omega) (fun a => a 0) _ (by decide) (fun a b h => h 0 (by omega)) val0 d0 writers c hr hq
 
 /-- Non-vacuity: a schedule of the constructor (2 inputs) and two writers that ends with every thread
 finished is reachable, so the hypotheses of `C14_derived_var` are satisfiable by a non-trivial run. -/
-example : ∃ c, Reach (dvSys 2 (fun a => a 0 + a 1))
+example : ∃ c, Reach (dvSys 2 (fun a => a 0 + a 1) (fun _ => true))
       (DVS.fresh (fun _ => 0) 7, DVT.cIdle (List.range 2) :: [[(0, 5)], [(1, 3)]].map DVT.idle) c :=
   ⟨_, runSched_reach _ _ [(1, 0), (0, 0), (1, 0), (2, 0), (0, 0), (0, 0), (0, 0)]⟩
 
@@ -438,6 +516,64 @@ theorem C14_eviction_concurrent_safety (ts : List EVT) (h0 : ∀ t ∈ ts, t.tod
 example : ∃ c, Reach evSys (EV.init, [⟨[], [.event 3, .event 1]⟩, ⟨[], [.evict 2]⟩, ⟨[], [.evict 5, .event 2]⟩]) c ∧
     c.1.trig = [1, 3] ∧ c.1.last = some 5 ∧ ∀ t ∈ c.2, t.finished = true :=
   ⟨_, runSched_reach _ _ [(0, 0), (0, 0), (1, 0), (2, 0), (1, 0), (2, 0), (2, 0)], by decide⟩
+
+/-- **`evict()`'s test and update as separate steps** (`evlSys true`: `Lock`, test `slot <= lastEvictedSlot`, collect
+and store *without testing again*, `Unlock`; `EvictionEvent` excluded while the write lock is held): every lock-level
+step is a stutter or the atomic call-level step of `evSys` — given mutual exclusion of the critical section and "a
+thread that passed the test still sees its slot un-evicted", both invariants of every reachable configuration.  So the
+atomicity that `C14_eviction_concurrent` builds in is a *consequence of the test being made under the write lock*. -/
+theorem C14_eviction_refines (ts : List EVT) (c : Cfg EVL EVLT)
+    (hr : Reach (evlSys true) (({ ev := EV.init, lock := false } : EVL), ts.map EVLT.run) c) :
+    Reach evSys (EV.init, ts) (c.1.ev, c.2.map EVLT.abs) := by
+  have h := (EvL.sim_reach _ _ (EvL.LInv_init ts) hr).2
+  have e : EvL.absC (({ ev := EV.init, lock := false } : EVL), ts.map EVLT.run) = (EV.init, ts) := by
+    simp [EvL.absC, EVLT.abs, Function.comp_def]
+  rw [e] at h
+  exact h
+
+/-- **EvictionState at lock level**: any goroutines with any scripts of `Evict` / `EvictionEvent`, every interleaving
+of the lock / test / update / unlock / trigger steps: once all calls have returned, a handed-out event has triggered
+iff its slot is at or below the last evicted slot, and the map holds no event of an evicted slot; at every moment the
+triggered events belong to evicted slots (in particular the last evicted slot never goes back below a triggered one). -/
+theorem C14_eviction_locked (ts : List EVT) (h0 : ∀ t ∈ ts, t.todo = []) (c : Cfg EVL EVLT)
+    (hr : Reach (evlSys true) (({ ev := EV.init, lock := false } : EVL), ts.map EVLT.run) c) :
+    (∀ slot ∈ c.1.ev.trig, c.1.ev.evicted slot = true) ∧ (∀ slot ∈ c.1.ev.events, c.1.ev.evicted slot = false) ∧
+    ((∀ t ∈ c.2, t.finished = true) → ∀ slot ∈ c.1.ev.handed, slot ∈ c.1.ev.trig ↔ c.1.ev.evicted slot = true) := by
+  have h := evl_inv ts h0 c hr
+  refine ⟨h.below, h.above, fun hq slot hh => ⟨h.below slot, fun he => ?_⟩⟩
+  rcases (h.handed slot).1 hh with h1 | h2 | ⟨t, ht, hx⟩
+  · have h' : c.1.ev.evicted slot = false := h.above slot h1
+    simp [he] at h'
+  · exact h2
+  · obtain ⟨u, hu, rfl⟩ := List.mem_map.1 ht
+    have hf := hq u hu
+    cases u with
+    | run t0 =>
+      simp only [EVLT.finished, EVT.finished, Bool.and_eq_true, List.isEmpty_iff] at hf
+      simp only [EVLT.abs] at hx
+      rw [hf.1] at hx
+      simp at hx
+    | _ => simp [EVLT.finished] at hf
+
+/-- The test in front of the critical section (under the read lock only, the write lock taken afterwards — lock and
+unlock unchanged) breaks it: two concurrent `Evict` calls for different slots set the last evicted slot **back**.
+`evlBackSched` is a complete run of `evlSys false` after which the event of slot 4 has triggered and slot 4 counts as
+not evicted (`LastEvictedSlot() = 3`). -/
+theorem C14_eviction_test_outside_lock_witness :
+    ∃ c, Reach (evlSys false) evlBackInit c ∧ (∀ t ∈ c.2, t.finished = true) ∧
+      (4 : Int) ∈ c.1.ev.trig ∧ c.1.ev.evicted 4 = false := by
+  refine ⟨_, runSched_reach _ _ evlBackSched, ?_, ?_, ?_⟩
+  · intro t ht
+    exact List.all_eq_true.1 evl_back_witness.1 t ht
+  · have := evl_back_witness.2.2.1
+    show (4 : Int) ∈ (runSched (evlSys false) evlBackInit evlBackSched).1.ev.trig
+    rw [this]; simp
+  · exact evl_back_witness.2.2.2
+
+example : ∃ c, Reach (evlSys true) (({ ev := EV.init, lock := false } : EVL),
+      [⟨[], [.event 4]⟩, ⟨[], [.evict 3]⟩, ⟨[], [.evict 5]⟩].map EVLT.run) c ∧
+    c.1.ev.trig = [4] ∧ c.1.ev.last = some 5 ∧ ∀ t ∈ c.2, t.finished = true :=
+  ⟨_, runSched_reach _ _ [(0, 0), (1, 0), (1, 0), (1, 0), (1, 0), (2, 0), (2, 0), (2, 0), (2, 0), (2, 0)], by decide⟩
 
 /-! ## No deadlock: lock order over scripts derived from the regenerated skeletons -/
 
@@ -651,6 +787,33 @@ theorem C14_skeleton_set_Compute : skel_set_Compute = [
   "call registeredCallback.LockExecution", "if{", "call registeredCallback.Invoke",
   "call registeredCallback.UnlockExecution", "}if", "}for", "return"] := by decide
 
+/-! Every write path of the reactive `Set` notifies its subscribers **inside** the write mutex `s.mutex` (deferred
+unlock): `Add` / `AddAll` / `Delete` / `DeleteAll` are `Apply`, `Compute` (the path `SubtractReactive` writes its result
+through) and `Replace` carry their own copy of the notification loop.  The asynchronous-delivery theorems
+(`C14_derived_set_concurrent`, …) assume per-subscription FIFO delivery in the order of the writes: a notification
+moved behind the unlock lets two writers deliver in the opposite order (sixth seeded round; `stress stackforced`). -/
+
+/-- set.Add (set_impl.go:30) -/
+theorem C14_skeleton_set_Add : skel_set_Add = ["call s.Apply", "return"] := by decide
+
+/-- set.AddAll (set_impl.go:35) -/
+theorem C14_skeleton_set_AddAll : skel_set_AddAll = ["call s.Apply", "return"] := by decide
+
+/-- set.Delete (set_impl.go:40) -/
+theorem C14_skeleton_set_Delete : skel_set_Delete = ["call s.Apply", "return"] := by decide
+
+/-- set.DeleteAll (set_impl.go:45) -/
+theorem C14_skeleton_set_DeleteAll : skel_set_DeleteAll = ["call s.Apply", "return"] := by decide
+
+/-- set.Replace (set_impl.go:91) -/
+theorem C14_skeleton_set_Replace : skel_set_Replace = [
+  "lock s.mutex", "defer unlock s.mutex", "helper replace", "for{", "call registeredCallback.LockExecution", "if{",
+  "call registeredCallback.Invoke", "call registeredCallback.UnlockExecution", "}if", "}for", "return"] := by decide
+
+/-- set.replace (set_impl.go:129): snapshot, difference and store under the value mutex -/
+theorem C14_skeleton_set_replace : skel_set_replace = [
+  "lock s.readableSet.mutex", "defer unlock s.readableSet.mutex", "func{", "return", "}func", "func{",
+  "return", "}func", "helper Replace", "return"] := by decide
 
 /-- ShrinkingMap.GetOrCreate (shrinkingmap.go:102): optimistic read, then the write lock, **re-check**, create — the
 atomicity `evictionState.EvictionEvent` relies on while it only holds its read lock (hypothesis of
